@@ -36,7 +36,7 @@ fi
 ( cd "$W" && patch -p1 -s < "$OUT/patch.diff" ) || { echo "$ID: patch does not apply"; echo "{\"id\":\"$ID\",\"status\":\"patch-does-not-apply\"}" > "$DEST/meta.json"; exit 1; }
 ( cd "$W" && "$VGO" build ./... && "$VGO" build -tags verif ./... ) > "$W/build.log" 2>&1 && res_build=ok || res_build=FAILED
 ( cd "$W" && "$VGO" test -vet=off -count=1 ./... ) > "$W/suite.log" 2>&1
-failed=$(grep -E '^(--- FAIL|FAIL)' "$W/suite.log" | grep -v rtptime | grep -v '^FAIL$' | head -5)
+failed=$(grep -E '^(--- FAIL|FAIL)' "$W/suite.log" | grep -v rtptime | grep -v "FAIL: TestTime" | grep -v '^FAIL$' | head -5)
 [ -z "$failed" ] && res_suite=green || res_suite="RED: $(echo $failed | cut -c1-200)"
 if [ -n "$demos" ]; then
   if demo_run; then res_demo_with=PASS; else res_demo_with=FAIL; tail -n 25 "$W/demo.log" > "$DEST/demo_with.log"; fi
